@@ -32,6 +32,8 @@ func runC05(c *eng.Ctx) {
 	c.Rule("R05.5", "K2")
 	ruleEpochHistoryIsReadInFileOrder(c)
 	ruleAppendAssignsEpochsFromTheCache(c)
+	ruleNotExistTestsSeeTheOSError(c)
+	ruleLoadedEpochsBecomeTheCache(c)
 	c.Rule("R05.8", "K5")
 	ruleRecoveredEntryIsTheLastAnswer(c)
 	// ---- R05.1
